@@ -504,7 +504,10 @@ class Ldap:
         after = obj_admin.get(ident, dirty=True)
 
         merged = copy.deepcopy(old)
-        merged.update(copy.deepcopy(new))
+        # [] == absent is the documented normalisation of a plain multi-valued
+        # field, and absent in an update means "leave alone" (None clears)
+        merged.update({k: copy.deepcopy(v) for k, v in new.items()
+                       if not (v == [] and k != list_field)})
         ref_admin, ref_store = self._admin(kind, model)
         ref_admin.create(ident, copy.deepcopy(merged))
         expected = ref_admin.get(ident, dirty=True)
